@@ -874,7 +874,7 @@ def gen_save_edges(rng, big, add):
     """Save_Function on tables whose last interval is a few ulp .. many ulp of the last abscissa wide (a geometric ladder): the last sampling point
     domain[0] + (points-1) * step is domain[1] only up to rounding, and 1 % of the last interval is the room it has"""
     pairs = [(0.1, 1e6 + 0.1), (1.1, 1000.3), (-0.7, 2.3), (0.3, 0.7), (1e-3, 5.7), (-1000.3, -1.1), (0.0, 1.0), (-1.0, 1.0)]
-    pairs += [(rng.uniform(-10, 10), rng.uniform(11, 1e4)) for _ in range(2 if not big else 30)]
+    pairs += [(rng.uniform(-10, 10), rng.uniform(11, 1e4)) for _ in range(2 if not big else 12)]
     widths = [1, 2, 4, 16, 64, 99, 100, 101, 128, 200, 256, 1024, 2 ** 20, 2 ** 30]
     for (d0, d1) in pairs:
         u = na(d1, math.inf) - d1
@@ -882,7 +882,7 @@ def gen_save_edges(rng, big, add):
             xs = [d0, 0.5 * (d0 + d1), d1 - k * u, d1]
             if not valid_table(xs): continue
             xd = rng.choice([-1.0, -1.0, -1.0, 10.0, 0.5])
-            for n_ in (range(2, 80) if big else rng.sample(range(2, 80), 3)):
+            for n_ in rng.sample(range(2, 80), 10 if big else 3):
                 add(f"icalls {flist(xs)} 4 {hx(xd)} {hx(-1.0)} 1 save {n_}", "save-function", nt=True)
 
 
@@ -896,14 +896,14 @@ def gen_long_sessions(rng, big, add):
         g = [rng.choice([-7.0, 0.0, 3.5])]
         for _ in range(n - 1): g.append(g[-1] + rng.choice([0.25, 0.5, 1.0, 1.0, 3.0]))
         return g
-    if big: lengths = [2, 3, 4, 5, 9, 10, 11, 12, 13, 21, 32, 33, 64, 65, 128, 129, 255, 256, 257, 258, 300, 511, 512, 513, 1000, 1024, 1025, 2049]
+    if big: lengths = [2, 3, 4, 5, 9, 10, 11, 12, 13, 21, 32, 33, 64, 65, 128, 129, 255, 256, 257, 258, 300, 511, 512, 513, 1000, 1024, 1025]
     else: lengths = [2, 3, 11, 12, rng.choice([21, 33, 64, 65, 129]), 256, 257, rng.choice([258, 300, 511, 512]), 513, rng.choice([1000, 1024, 1025])]
     def call(kind, x, y=None):
         if kind in ("loc", "ev"): return f"{kind} {hx(x)}"
         if kind == "der": return f"der {hx(x)} {rng.choice([0, 1, 2, 3])}"
         return f"{kind} {hx(x)} {hx(y)}"
     for n in lengths:
-        for rep in range(1 if not big else 3):
+        for rep in range(1 if (not big or n > 300) else 2):
             g = grid(n); xd = rng.choice([-1.0, -1.0, 10.0, 1.5 * 2.0 ** -40, 1e6]); fd = rng.choice([-1.0, 2.5])
             sx = scaled_table(g, xd)
             if sx is None: continue
@@ -924,7 +924,7 @@ def gen_long_sessions(rng, big, add):
                 if kind in ("loc", "ev", "der"): return call(kind, x)
                 y = inside(rng.randrange(n - 1))
                 return call(kind, y, x) if side == "R" else call(kind, x, y)
-            ms = [0] + (sorted(rng.sample(range(1, 18), 3)) if not big else list(range(1, 18)) + [31, 63])
+            ms = [0] + (sorted(rng.sample(range(1, 18), 3)) if not big else list(range(1, 9)) + sorted(rng.sample(range(9, 18), 4)) + [31, 63])
             for side in ("R", "L"):
                 for m in ms:
                     if m > n - 2: continue
